@@ -15,6 +15,7 @@
 import Pakhi.Lemmas.Assoc
 import Pakhi.Lemmas.FrameInv
 import Pakhi.Lemmas.Names
+import Pakhi.Lemmas.FrameX5
 namespace Pakhi
 namespace C04
 
@@ -132,6 +133,20 @@ theorem statement_declares_only_in_innermost_scope {prog : List Stmt} (h : Struc
 
 /-- non-vacuity of `grow`: only the head (innermost scope) changes -/
 example : grow ["x".toList] [["a".toList], ["g".toList]] = [["a".toList, "x".toList], ["g".toList]] := by decide
+
+/-- **… and nothing else**: outer-scope bindings whose names a program never mentions (scalars, functions) are never read and
+    never changed by it — whatever it declares, assigns, calls, loops over or collects: the run with them is the run without them,
+    and they are still there, unchanged, at the end -/
+theorem unmentioned_bindings_untouched (X : Scope) (hX : NoRefs X) (prog : List Stmt) (hprog : avL (keysOf X) prog) (g : GcMode)
+    (f k : Nat) (cur : List Stmt) (s : St) (hd : Dom (keysOf X) s) (hcur : avL (keysOf X) cur) :
+    runLoop prog g f k cur (TX X s) = (runLoop prog g f k cur s).rn (TX X) :=
+  runLoop_frameX X hX prog hprog g f k cur s hd hcur
+
+/-- one statement: executing it with the extra bindings present gives the same continuation and the same state plus the bindings -/
+theorem statement_ignores_unmentioned_bindings (X : Scope) (prog : List Stmt) (hprog : avL (keysOf X) prog)
+    (f : Nat) (cur : List Stmt) (s : St) (hd : Dom (keysOf X) s) (hcur : avL (keysOf X) cur) :
+    exec prog f cur (TX X s) = (exec prog f cur s).rn (fun x => (x.1, TX X x.2)) :=
+  (fxInv X prog hprog f).exec cur s hd hcur
 
 end C04
 end Pakhi
